@@ -103,7 +103,7 @@ theorem performed_apply (sh : Shared) (a : Act) (ev : Nat) :
 theorem decide_cred (sh : Shared) (op : OpSpec) (now : Nat) (pc : Pc) (ev : Nat) :
     actAmt ev (decideStep sh op now pc).1 + (if pcPast pc then opAmt ev op else 0)
       ≤ nxCred ev op (decideStep sh op now pc).2 := by
-  cases pc <;> simp only [decideStep, pcPast]
+  cases pc <;> simp only [decideStep, pcPast, Bool.false_eq_true, if_false, if_true, Nat.add_zero]
   case curLoad => split_ifs <;> simp [actAmt]
   case tryLock => split_ifs <;> simp [actAmt]
   case spin => simp [actAmt]
